@@ -4,7 +4,8 @@
 Import-free (core Lean only). Strings are `List Char` (`Str`); the driver converts at the boundary.
 
 Transcribed function by function from
-* `casbin/core_enforcer.py`  `_get_expression` (after the F01 repair: `" and "`, `" or "`), result typing of
+* `casbin/core_enforcer.py`  `_get_expression` (after the F01 repair: `" and "`, `" or "`; after the F01b repair:
+  applied outside string literals only, see "String literals" below), result typing of
   `enforce_ex` (after the F17b repair: an `int` result is numeric), enforce-context selection;
 * `casbin/util/util.py`      `escape_assertion`, `remove_comments`, `has_eval`, `get_eval_value`, `replace_eval`;
 * `casbin/model/model.py`    `add_def` (token naming of `r`/`p` definitions, matcher post-processing), `_load_section`;
@@ -177,13 +178,108 @@ def replaceEvalAux : Nat → Bool → Str → List Str → Option Str
 
 def replaceEval (s : Str) (rules : List Str) : Option Str := replaceEvalAux 0 false s rules
 
+/-! ## String literals (after the F01b repair): `literal_reg`, `split_literals`, `sub_outside_literals`,
+     `search_outside_literals` of casbin/util/util.py
+
+A string literal runs from a quote (`"` or `'`) to the next quote of the same kind that is not escaped with a
+backslash, or to the end of the text when there is none
+(`"(?:[^"\\]|\\[\s\S])*(?:"|\\?\Z)` and the same with `'`). Every rewriting step of the pipeline is applied to the
+texts *outside* string literals only, one text at a time; the functions above (`getExpression`,
+`subRef`, `searchRef`, `findEvals`, `replaceEval`, the `#` search) are the per-text steps. -/
+
+def isQuote (c : Char) : Bool := c == '"' || c == '\''
+
+/-- an item of `split_literals`: a text outside literals, or a literal (quote kind, body, is it closed) -/
+inductive Piece
+  | out (s : Str)
+  | lit (q : Char) (body : Str) (closed : Bool)
+  deriving DecidableEq, Repr
+
+def Piece.text : Piece → Str
+  | .out s => s
+  | .lit q b closed => q :: (b ++ if closed then [q] else [])
+
+def Piece.isLit : Piece → Bool
+  | .lit .. => true
+  | .out _ => false
+
+/-- one more character in front of the first piece -/
+def consPiece (c : Char) : List Piece → List Piece
+  | .out s :: r => .out (c :: s) :: r
+  | .lit q b closed :: r => .lit q (c :: b) closed :: r
+  | [] => []          -- unreachable: `pieces` never returns the empty list
+
+/-- `split_literals` as a scanner; the state is `none` outside a literal, `some (q, esc)` inside a literal opened
+    by `q` (`esc`: the previous character is an unescaped backslash, so this one cannot close the literal) -/
+def pieces : Option (Char × Bool) → Str → List Piece
+  | none, [] => [.out []]
+  | some (q, _), [] => [.lit q [] false]
+  | none, c :: t => if isQuote c then .out [] :: pieces (some (c, false)) t else consPiece c (pieces none t)
+  | some (q, true), c :: t => consPiece c (pieces (some (q, false)) t)
+  | some (q, false), c :: t =>
+    if c = q then .lit q [] true :: pieces none t
+    else consPiece c (pieces (some (q, c == '\\')) t)
+
+/-- `sub_outside_literals(fn, s)` -/
+def outside (f : Str → Str) (s : Str) : Str :=
+  ((pieces none s).map fun p => match p with | .out x => f x | p => p.text).flatten
+
+/-- `split_literals(s)[::2]` -/
+def outs (s : Str) : List Str := (pieces none s).filterMap fun p => match p with | .out x => some x | _ => none
+
+/-- the string literals of a text, in order -/
+def literals (s : Str) : List Piece := (pieces none s).filter Piece.isLit
+
+/-- `_get_expression`: the operator rewriting, outside string literals -/
+def getExpressionL (s : Str) : Str := outside getExpression s
+
+/-- one kind of `escape_assertion`: the first reference outside string literals decides the suffix, every text
+    outside string literals is rewritten -/
+def escapeKindL (k : Char) (s : Str) : Str :=
+  match (outs s).findSome? (searchRef k false) with
+  | some suf => outside (subRef k suf 0 false) s
+  | none => s
+
+/-- `escape_assertion` -/
+def escapeAssertionL (s : Str) : Str := escapeKindL 'r' (escapeKindL 'p' s)
+
+/-- the text before the first `#` outside string literals (`none`: there is no such `#`) -/
+def cutComment : List Piece → Option Str
+  | [] => none
+  | .out x :: r => if x.contains '#' then some (x.takeWhile (· != '#')) else (cutComment r).map (x ++ ·)
+  | p :: r => (cutComment r).map (p.text ++ ·)
+
+/-- `remove_comments` -/
+def removeCommentsL (s : Str) : Str :=
+  match cutComment (pieces none s) with
+  | some x => strip x
+  | none => s
+
+/-- `get_eval_value` -/
+def getEvalValueL (s : Str) : List Str := (outs s).flatMap getEvalValue
+
+/-- `has_eval` -/
+def hasEvalL (s : Str) : Bool := !(getEvalValueL s).isEmpty
+
+def replaceEvalPieces : List Piece → List Str → Option Str
+  | [], _ => some []
+  | .out x :: r, rules =>
+    -- the calls of this text take their rule texts from the front of the list
+    match replaceEval x (rules.take (getEvalValue x).length) with
+    | none => none
+    | some y => (replaceEvalPieces r (rules.drop (getEvalValue x).length)).map (y ++ ·)
+  | p :: r, rules => (replaceEvalPieces r rules).map (p.text ++ ·)
+
+/-- `replace_eval(expr, rules)`; `none` = `IndexError` of `rules.pop(0)` -/
+def replaceEvalL (s : Str) (rules : List Str) : Option Str := replaceEvalPieces (pieces none s) rules
+
 /-! ## `Model.add_def` -/
 
 /-- tokens of an `r` / `p` definition: `key + "_" + token.strip()` for `value.split(",")` -/
 def defTokens (key value : Str) : List Str := (splitOn ',' value).map fun t => key ++ '_' :: strip t
 
 /-- value stored for an `e` / `m` definition -/
-def matcherValue (value : Str) : Str := removeComments (escapeAssertion value)
+def matcherValue (value : Str) : Str := removeCommentsL (escapeAssertionL value)
 
 /-! ## `Config._parse_buffer` / `_write` / `add_config` / `get` (casbin/config/config.py) -/
 
@@ -305,16 +401,16 @@ def pipeline (text : Str) (rtype ptype mtype : Str) (nreq : Nat) (pvals : List S
         else if pTokens.length ≠ pvals.length then .error .invalidPolicySize
         else
           let expr := matcherValue mv
-          if hasEval expr then
-            let names := getEvalValue expr
+          if hasEvalL expr then
+            let names := getEvalValueL expr
             let params := pTokens.zip pvals
             match names.mapM (fun n => params.lookup n) with
             | none => .error .keyError
             | some rules =>
-              match replaceEval expr (rules.map escapeAssertion) with
+              match replaceEvalL expr (rules.map escapeAssertionL) with
               | none => .error .indexError
-              | some e => .ok (getExpression e)
-          else .ok (getExpression expr)
+              | some e => .ok (getExpressionL e)
+          else .ok (getExpressionL expr)
       | _, _, _ => .error .keyError
 
 /-! ## Result typing of `enforce_ex` (casbin/core_enforcer.py) -/
